@@ -34,3 +34,20 @@ def no_sleep():
 
 def quiet():
     logging.disable(logging.ERROR)
+
+
+def basic_str(b):
+    """BASIC string expression (bytes) whose value is the arbitrary byte string b."""
+    parts = []
+    cur = b''
+    for c in b:
+        if 0x20 <= c <= 0x7e and c != 0x22:
+            cur += bytes([c])
+        else:
+            if cur:
+                parts.append(b'"' + cur + b'"')
+                cur = b''
+            parts.append(b'CHR$(%d)' % c)
+    if cur or not parts:
+        parts.append(b'"' + cur + b'"')
+    return b'+'.join(parts)
